@@ -25,7 +25,7 @@ type L2OracleHandler struct {
 	oracleKeeper        types.OracleKeeper
 	extendedCommitCodec connectcodec.ExtendedCommitCodec
 	veCodec             connectcodec.VoteExtensionCodec
-	voteAggregator      connectaggregator.VoteAggregator
+	logger              log.Logger
 }
 
 func NewL2OracleHandler(
@@ -44,16 +44,24 @@ func NewL2OracleHandler(
 			connectcodec.NewDefaultVoteExtensionCodec(),
 			connectcodec.NewZLibCompressor(),
 		),
-		voteAggregator: connectaggregator.NewDefaultVoteAggregator(
-			logger,
-			voteweighted.MedianFromContext(
-				logger,
-				k.HostValidatorStore,
-				voteweighted.DefaultPowerThreshold,
-			),
-			currencypair.NewHashCurrencyPairStrategy(oracleKeeper),
-		),
+		logger: logger,
 	}
+}
+
+// newVoteAggregator returns a vote aggregator for a single oracle update. The currency pair
+// strategy keeps an in-memory id cache per block height; sharing it between executions makes
+// the gas consumed by an update depend on what the process has executed before (check tx,
+// simulation, a proposal that was not committed), so every update starts with an empty one.
+func (k L2OracleHandler) newVoteAggregator() connectaggregator.VoteAggregator {
+	return connectaggregator.NewDefaultVoteAggregator(
+		k.logger,
+		voteweighted.MedianFromContext(
+			k.logger,
+			k.HostValidatorStore,
+			voteweighted.DefaultPowerThreshold,
+		),
+		currencypair.NewHashCurrencyPairStrategy(k.oracleKeeper),
+	)
 }
 
 func (k L2OracleHandler) UpdateOracle(ctx context.Context, height uint64, extCommitBz []byte) error {
@@ -93,7 +101,7 @@ func (k L2OracleHandler) UpdateOracle(ctx context.Context, height uint64, extCom
 	if err != nil {
 		return err
 	}
-	prices, err := k.voteAggregator.AggregateOracleVotes(sdkCtx, votes)
+	prices, err := k.newVoteAggregator().AggregateOracleVotes(sdkCtx, votes)
 	if err != nil {
 		return err
 	}
